@@ -6,6 +6,7 @@ package main
 import (
 	"hash/fnv"
 	"strings"
+	"time"
 
 	"verif/harness/hv"
 
@@ -163,5 +164,6 @@ func gen(r *hv.Rng, i int, tier string) (string, hv.Val) {
 }
 
 func main() {
-	hv.Main(&hv.Spec{Prop: "C20", Gen: gen, Impl: impl, NQuick: 3000, NThorough: 150000})
+	hv.Main(&hv.Spec{Prop: "C20", Gen: gen, Impl: impl, NQuick: 3000, NThorough: 150000,
+		Deadline: 3 * time.Second}) // a corrupted chain can make exist/del loop forever
 }
